@@ -174,3 +174,61 @@ Proof.
   - apply dec_enc_string. lia.
   - apply dec_enc_string. lia.
 Qed.
+
+(* the identification string is self-delimiting: what the decoder returns depends only on the bytes up to and including the
+   first LF, the reported length n is their number (1 <= n <= 255), and the same bytes followed by anything else decode alike *)
+Lemma until_byte_split x l a b : until_byte x l = Some (a, b) -> exists c, l = a ++ c :: b /\ b2z c = b2z x.
+Proof.
+  revert a b. induction l as [|c r IH]; intros a b H; [discriminate|]. cbn [until_byte] in H.
+  destruct (Z.eqb_spec (b2z c) (b2z x)) as [E|_].
+  - injection H as <- <-. exists c. split; [reflexivity|exact E].
+  - destruct (until_byte x r) as [[a' b']|] eqn:Er; [|discriminate]. injection H as <- <-.
+    destruct (IH a' b' eq_refl) as [c' [-> Ec]]. exists c'. split; [reflexivity|exact Ec].
+Qed.
+
+Lemma until_byte_app x l a b s : until_byte x l = Some (a, b) -> until_byte x (l ++ s) = Some (a, b ++ s).
+Proof.
+  revert a b. induction l as [|c r IH]; intros a b H; [discriminate|]. cbn [until_byte app] in *.
+  destruct (b2z c =? b2z x).
+  - injection H as <- <-. reflexivity.
+  - destruct (until_byte x r) as [[a' b']|] eqn:Er; [|discriminate]. injection H as <- <-. rewrite (IH a' b' eq_refl). reflexivity.
+Qed.
+
+Lemma until_byte_first x a c s : b2z c = b2z x -> until_byte x a = None -> until_byte x (a ++ c :: s) = Some (a, s).
+Proof.
+  intros Ec. induction a as [|d r IH]; intros H.
+  - cbn [app until_byte]. rewrite Ec, Z.eqb_refl. reflexivity.
+  - cbn [app until_byte] in *. destruct (b2z d =? b2z x); [discriminate|].
+    destruct (until_byte x r) as [[a' b']|]; [discriminate|]. rewrite (IH eq_refl). reflexivity.
+Qed.
+
+Lemma until_byte_none_prefix x l a b : until_byte x l = Some (a, b) -> until_byte x a = None.
+Proof.
+  revert a b. induction l as [|c r IH]; intros a b H; [discriminate|]. cbn [until_byte] in H.
+  destruct (b2z c =? b2z x) eqn:E.
+  - injection H as <- <-. reflexivity.
+  - destruct (until_byte x r) as [[a' b']|] eqn:Er; [|discriminate]. injection H as <- <-.
+    cbn [until_byte]. rewrite E, (IH a' b' eq_refl). reflexivity.
+Qed.
+
+Lemma banner_self_delimiting l p sw c n : dec_banner l = Some (p, sw, c, n) ->
+  1 <= n <= 255 /\ n <= zlen l /\ forall s, dec_banner (firstn (Z.to_nat n) l ++ s) = Some (p, sw, c, n).
+Proof.
+  unfold dec_banner. destruct (until_byte b_lf l) as [[line rest]|] eqn:El; cbn [obind]; [|discriminate].
+  destruct (until_byte_split _ _ _ _ El) as [lf [-> Elf]]. pose proof (zlen_nonneg line) as Ln.
+  unfold banner_max. destruct (Z.ltb_spec 255 (zlen line + 1)) as [|Hn]; [discriminate|].
+  intros H.
+  assert (En : n = zlen line + 1).
+  { destruct (negb _); [discriminate|]. destruct (until_byte b_dash _) as [[pr rs]|]; cbn [obind] in H; [|discriminate].
+    destruct (until_byte b_sp rs) as [[s1 s2]|]; injection H; intros; subst; reflexivity. }
+  split; [lia|]. split.
+  - rewrite zlen_app, zlen_cons. pose proof (zlen_nonneg rest). lia.
+  - intros s. subst n.
+    assert (Ef : firstn (Z.to_nat (zlen line + 1)) (line ++ lf :: rest) = line ++ [lf]).
+    { replace (Z.to_nat (zlen line + 1)) with (length (line ++ [lf])) by (rewrite app_length; unfold zlen; cbn [length]; lia).
+      replace (line ++ lf :: rest) with ((line ++ [lf]) ++ rest) by (rewrite <- app_assoc; reflexivity).
+      apply firstn_app_exact. }
+    rewrite Ef, <- app_assoc. cbn [app].
+    rewrite (until_byte_first b_lf line lf s Elf (until_byte_none_prefix _ _ _ _ El)). cbn [obind].
+    destruct (Z.ltb_spec 255 (zlen line + 1)) as [|_]; [lia|]. exact H.
+Qed.
